@@ -40,6 +40,7 @@ type scItem struct {
 	Altt *scAlt `json:"altt"`
 	Altm *scAlt `json:"altm"`
 	Mb   int    `json:"mb"`
+	RFile int   `json:"file"` // require: number of the required file
 	// set by a family before rendering (not part of TLC's record)
 	Attr  bool   `json:"-"` // local: written with a <const> attribute
 	MName string `json:"-"` // meth: the method's own name (default "mm"); when set an occurrence of role "mdef" is recorded
@@ -213,6 +214,10 @@ func scRenderMode(items []scItem, mode int) *scRender {
 			add(i, "local ", decl("n", it.N, it.ID, "local"), ", ", decl("m", it.M, it.Mid, "local"), " = ", use("u", it.U, it.B, it.Alt))
 		case "use":
 			add(i, "print(", use("u", it.U, it.B, it.Alt), ")")
+		case "ret":
+			add(i, "return ", use("u", it.U, it.B, it.Alt))
+		case "require":
+			add(i, "local ", decl("n", it.N, it.ID, "local"), fmt.Sprintf(" = require(\"f%d\")", it.RFile))
 		case "assign":
 			var tgt occ
 			if it.Nb != 0 {
